@@ -35,7 +35,6 @@ expect() {
     C04i*) echo "C04 C09" ;;
     C03j*) echo "C11" ;;
     C03k-*) echo "C11" ;;
-    C15k-*) echo "" ;; # needs two refreshers to interleave at lock acquisitions while every broker fails: not enumerated (DESIGN.md §9)
     C17j*) echo "C15" ;; # the stale writable list is client metadata; the routing rig has no leadership change between messages
     C17i*) echo "C17 C15" ;;
     C19-retry-budget-off-by-one) echo "" ;; # deliberately not flagged (DESIGN.md §11)
